@@ -149,6 +149,30 @@ Theorem C28_identical_is_reusable : forall des ids c, NoDup (map e_dir des) -> I
 Proof. exact identical_reusable. Qed.
 Print Assumptions C28_identical_is_reusable.
 
+(* the other half: an entry beneath an entry that is not kept (i.e. is unmounted, and mounted again if still desired)
+   is not kept either - it would go away with its parent and never be mounted again. From the skipDir scan over the
+   sorted current entries (everything between an entry and an entry beneath it, in the trailing-slash order, is
+   beneath it too). Hypotheses: no two current entries share a sort key; the two entries are on the same side of the
+   overname boundary (byOvernameAndMountPoint scans overname entries first). *)
+Theorem C28_no_keep_beneath_unmounted : forall fs current desired p c,
+  let cur := map clean_entry current in
+  NoDup (map sort_key cur) -> In p cur -> In c cur ->
+  is_overname p = is_overname c -> beneath c p = true -> sort_key p <> sort_key c ->
+  ~ In (Keep, p) (needed_changes fs current desired) ->
+  ~ In (Keep, c) (needed_changes fs current desired).
+Proof. exact no_keep_beneath_unmounted. Qed.
+Print Assumptions C28_no_keep_beneath_unmounted.
+
+(* ... and across that boundary it is false (KNOWN_FINDINGS key keep-beneath-unmounted-overname; scripted histories
+   for all origin pairs are in the driver and run on the implementation every time) *)
+Theorem C28_no_keep_beneath_unmounted_overname_refuted :
+  exists fs current desired p c,
+    NoDup (map sort_key (map clean_entry current)) /\ In p (map clean_entry current) /\ In c (map clean_entry current) /\
+    beneath c p = true /\ sort_key p <> sort_key c /\
+    ~ In (Keep, p) (needed_changes fs current desired) /\ In (Keep, c) (needed_changes fs current desired).
+Proof. exact no_keep_beneath_unmounted_overname_refuted. Qed.
+Print Assumptions C28_no_keep_beneath_unmounted_overname_refuted.
+
 (* unmounts: exactly the not reused current entries, in the exact reverse of the current profile's order; so of two
    unmounted entries the one recorded later (mounted later) goes first - children before parents *)
 Theorem C28_unmount_order : forall fs current desired,
